@@ -240,7 +240,7 @@ class Mode:
                 if o[0] == "return":
                     local.returns.add((o[1], o[2]))
                 else:
-                    for name in self._raised_classes(o[1], hs):
+                    for name in self._raised_classes(o[1], hs, A):
                         if not self._caught(name, cov):
                             local.raises.add(Esc(name, fn.qualname, o[2]))
             elif o is None and paths is s.paths:
@@ -248,7 +248,10 @@ class Mode:
             res.raises |= local.raises
             res.returns |= local.returns
 
-    def _raised_classes(self, t, handlers: tuple) -> list[str]:
+    def _raised_classes(self, t, handlers: tuple, A: dict | None = None) -> list[str]:
+        head = t[1] if op(t) == "call" else t
+        if A and op(head) == "param" and f"@cls:{head[1]}" in A:
+            return [A[f"@cls:{head[1]}"]]  # the exception class handed in by the call site under analysis
         if op(t) == "reraise":
             if handlers:
                 return [n.split(".")[-1] for n in handlers[-1].a]
@@ -296,7 +299,17 @@ class Mode:
                         callee = self.cx.model.find_method(self.cx.model.classes[f[1]], "__init__")
                     if callee is None:
                         continue
+                    from ..rules import bind_args
+
+                    bound = bind_args(callee, c) or {}
+                    cls_args = {}
+                    for pn, av in bound.items():
+                        if op(av) == "cls":
+                            cls_args[f"@cls:{pn}"] = av[1].rsplit(".", 1)[-1]
+                        elif op(av) == "param" and f"@cls:{av[1]}" in A:
+                            cls_args[f"@cls:{pn}"] = A[f"@cls:{av[1]}"]
                     for A2 in self.callee_assignments(callee, c, A):
+                        A2 = {**A2, **cls_args}
                         sub = self.analyse(callee, A2, stack + (fn.qualname,))
                         for e in sub.raises:
                             if not self._caught(e.cls, cov):
@@ -327,8 +340,31 @@ class Mode:
                     keys.append((c[2], c[1]))
         if not keys:
             return False
+        # tables with the same key set (IDX: both are keyed by every CURIE prefix and synonym / every URI prefix and
+        # synonym of every record, C05-D1): a hit in one is a hit in the other
+        same_keys = [{"prefix_map", "synonym_to_prefix"}, {"reverse_prefix_map", "trie"}]
+
+        def twins(tab):
+            out = [tab]
+            if op(tab) == "attr":
+                for grp in same_keys:
+                    if tab[2] in grp:
+                        out += [("attr", tab[1], o) for o in grp if o != tab[2]]
+            return out
+
+        def passed(k, tab):
+            for tb in twins(tab):
+                for g, pol in guards:
+                    if (g == ("cmp", "in", k, tb) and pol is True) or (g == ("cmp", "not in", k, tb) and pol is False):
+                        return True
+                    # tb.get(k) is not None  (the tables hold strings, never None)
+                    got = ("call", ("attr", tb, "get"), (k,), ())
+                    if (g == ("cmp", "is", got, NONE) and pol is False) or (g == ("cmp", "is not", got, NONE) and pol is True):
+                        return True
+            return False
+
         for k, tab in keys:
-            if not any((g == ("cmp", "in", k, tab) and pol is True) or (g == ("cmp", "not in", k, tab) and pol is False) for g, pol in guards):
+            if not passed(k, tab):
                 return False
         return True
 
